@@ -69,10 +69,11 @@ CHECKS['C13'] = dict(level='model_checking', ref='DESIGN.md 3.4, 6 (C13)',
         'FanoutTrace.tla: N CacheOps states + the observed routing function; key-addressed calls are the CacheOps step on the routed shard, aggregates (len, clear, expire, evict, cull, stats, iteration both ways) are folds over all shards exactly once, the size limit is total/N. Random histories on 1/2/3/8/13 shards with the projection of every shard after every call are validated by TLC. '
         'Routing: the shard of 62 keys (ints incl. 64-bit boundaries, floats, text, bytes, composite) is computed in fresh interpreters with different PYTHONHASHSEED values, compared with each other and with the table recorded from the released version (fixtures/routing.json); numerically equal int/float keys landing in different shards are the listed known finding.',
    technique='TLA+ lock-step refinement (shards + any routing -> one cache) checked by TLC; trace validation by TLC against the sharded-cache spec; routing tables compared across interpreters and with a recorded fixture')
-CHECKS['C19'] = dict(level='exploration', ref='DESIGN.md 3.4, 6 (C19)',
-   text='DjangoTrace.tla states the contract on top of the CacheOps operators: made keys prefix:version:key, timeout mapping (DEFAULT -> backend TIMEOUT, None forever, 0/negative already expired), add/get/set/touch/delete/incr/decr(ValueError)/has_key/get_many/set_many/delete_many/get_or_set/incr_version/decr_version/pop/clear. '
+CHECKS['C19'] = dict(level='model_checking', ref='DESIGN.md 3.4, 6 (C19)',
+   text='Design level: DjangoSeq.tla states the contract directly (a map (key, version) -> value with an expiry instant; timeouts DEFAULT / None / zero-or-negative / positive) and runs it in lock step with DjangoCache\'s composition of reference-dictionary operations over made keys (DjangoOps.tla) for every backend configuration (prefix, default version, TIMEOUT) chosen in Init; TLC checks SameResults, Agreement (what is visible through the contract is what is stored) and Namespaced; a TIMEOUT of 0 stored forever and a made key without the version must fail. '
+        'DjangoTrace.tla judges recorded calls with the same composition: made keys prefix:version:key, timeout mapping (DEFAULT -> backend TIMEOUT, None forever, 0/negative already expired), add/get/set/touch/delete/incr/decr(ValueError)/has_key/get_many/set_many/delete_many/get_or_set/incr_version/decr_version/pop/clear. '
         'Random call sequences under a virtual clock over keys x versions x timeout classes x backend TIMEOUT/KEY_PREFIX/VERSION/SHARDS are validated by TLC (return values); the same plans through Django\'s own LocMemCache validate the spec\'s reading of the contract (a disagreement there is a machinery failure, not a violation).',
-   technique='trace validation by TLC against a TLA+ statement of the Django cache contract, cross-checked against LocMemCache')
+   technique='TLA+ lock-step refinement (contract map <- composition over made keys) checked by TLC; trace validation by TLC, cross-checked against LocMemCache')
 CHECKS['C15'] = dict(level='model_checking', ref='DESIGN.md 3.6, 6 (C15)',
    text='Locks.tla models Lock (spin on atomic add / delete), RLock ((owner,count) read-modify-write in a transaction) and BoundedSemaphore at the granularity of atomic cache operations (justified by C05/C06); TLC checks MutualExclusion, SemBound, RLockOwner, FreeWhenNoHolder and, under fairness, that every contender completes its rounds (3 contenders x 2 rounds, nesting 2, value 2). '
         'The real recipes run on threads (shared / own Cache and FanoutCache objects) under the scheduler: all schedules up to 2 preemptions of 2-3 contender programs, PCT/random for 2-4 contenders, barrier, extra releases, and an RLock built before fork released by the child; witness events enter/exit are validated by TLC (LocksTrace.tla).',
